@@ -371,8 +371,9 @@ Value Search::search(Position& position, Depth depth, Value alpha, Value beta,
     // without any move
     if (!ROOT_NODE && (position.is_repeated() || position.is_draw())) EXIT_SEARCH(VALUE_DRAW);
 
-    Move* begin = ROOT_NODE ? &(*_root_moves.begin()) : MOVE_LIST[info->_ply];
-    Move* end = ROOT_NODE ? &(*_root_moves.end())
+    // (data() rather than &*begin(): the root list is empty when `go` is sent in a mated or stalemated position)
+    Move* begin = ROOT_NODE ? _root_moves.data() : MOVE_LIST[info->_ply];
+    Move* end = ROOT_NODE ? _root_moves.data() + _root_moves.size()
                           : generate_moves(position, position.color(), begin);
     const int n_moves = end - begin;
     VERIF_EVENT(verif::EV_MOVES, info->_ply, reinterpret_cast<int64_t>(begin), n_moves);
